@@ -250,6 +250,20 @@ NEW_KINDS = {
 }
 
 
+_KNOWN_CONSTANTS = None
+
+
+def _known_constants() -> dict:
+    global _KNOWN_CONSTANTS
+    if _KNOWN_CONSTANTS is None:
+        import json
+        import pathlib
+
+        p = pathlib.Path(__file__).with_name("known_constants.json")
+        _KNOWN_CONSTANTS = {k: set(v) for k, v in json.loads(p.read_text()).items()} if p.exists() else {}
+    return _KNOWN_CONSTANTS
+
+
 class Lowering:
     """Lower ``ast`` expressions of one function to terms, given a variable environment."""
 
@@ -320,6 +334,12 @@ class Lowering:
         if kind == "cls":
             return ("cls", r[1].qualname)
         if kind == "const":
+            # a module-level name the pinned tree does not have, bound once to a plain literal: the literal
+            # (magic strings / numbers given a name by the change under analysis)
+            known = _known_constants().get(r[1].name)
+            node = r[1].constants.get(r[2])
+            if known is not None and r[2] not in known and isinstance(node, ast.Constant) and isinstance(node.value, (str, int, float, bool)) and node.value is not None:
+                return ("const", node.value)
             return ("gconst", r[1].name, r[2])
         if kind == "ext":
             return ("ext", r[1])
@@ -359,7 +379,10 @@ class Lowering:
                 return d_
         prop = self.model_props().get(name)
         if prop is not None:
-            return substitute(prop, {("param", "$self"): base})
+            return self._project_fields(substitute(prop, {("param", "$self"): base}))
+        idx = self._typed_field_index(base, name)
+        if idx is not None:
+            return ("item", base, ("const", idx))
         nt = self._namedtuple_ctor(base)
         if nt is not None:
             ci, fields = nt
@@ -378,14 +401,80 @@ class Lowering:
                         self._nt_depth -= 1
         return ("attr", base, name)
 
+    def _project_fields(self, t):
+        """``Cls(a, b).x`` left behind by a substitution (a property body instantiated on a NamedTuple built in
+        place) is the argument the field was given."""
+        if not isinstance(t, tuple):
+            return t
+        t = tuple(self._project_fields(x) if isinstance(x, tuple) else x for x in t)
+        if op(t) == "attr" and isinstance(t[2], str) and op(t[1]) == "call":
+            nt = self._namedtuple_ctor(t[1])
+            if nt is not None and t[2] in nt[1]:
+                return nt[1][t[2]]
+        return t
+
+    def _declared_length(self, x):
+        """Number of components of ``x`` when it is a call of a package function declared to return a fixed-size
+        tuple (``tuple[str, str]``) or a package NamedTuple; else None."""
+        if op(x) != "call":
+            return None
+        f = x[1]
+        fn = self.model.functions.get(f[1]) if op(f) == "func" else None
+        if fn is None or fn.node.returns is None:
+            return None
+        r = fn.node.returns
+        if isinstance(r, ast.Constant) and isinstance(r.value, str):
+            try:
+                r = ast.parse(r.value, mode="eval").body
+            except SyntaxError:
+                return None
+        if isinstance(r, ast.Subscript) and ast.unparse(r.value).rsplit(".", 1)[-1] in ("tuple", "Tuple"):
+            elts = r.slice.elts if isinstance(r.slice, ast.Tuple) else [r.slice]
+            if any(isinstance(e_, ast.Constant) and e_.value is Ellipsis for e_ in elts):
+                return None
+            return len(elts)
+        ret = ast.unparse(r).rsplit(".", 1)[-1]
+        for ci in self.model.classes.values():
+            if ci.name == ret and any(b.split("[")[0].rsplit(".", 1)[-1] == "NamedTuple" for b in ci.base_exprs):
+                return len([n for n, (ann, _) in ci.fields.items() if ann is not None])
+        return None
+
+    def _typed_field_index(self, base, name: str):
+        """``f(..).field`` where the package function f is declared to return a package NamedTuple: the position of
+        the field (a NamedTuple IS the tuple of its fields, so ``.field`` and ``[i]`` are one value)."""
+        if op(base) != "call":
+            return None
+        f = base[1]
+        fn = None
+        if op(f) == "func":
+            fn = self.model.functions.get(f[1])
+        elif op(f) == "attr" and isinstance(f[2], str):
+            cands = [g for q, g in self.model.functions.items() if q.endswith("." + f[2]) and g.cls is not None]
+            fn = cands[0] if len(cands) == 1 else None
+        if fn is None or fn.node.returns is None:
+            return None
+        ret = ast.unparse(fn.node.returns).strip("'\"").rsplit(".", 1)[-1]
+        for q, ci in self.model.classes.items():
+            if ci.name == ret and any(b.split("[")[0].rsplit(".", 1)[-1] == "NamedTuple" for b in ci.base_exprs):
+                names = [n for n, (ann, _) in ci.fields.items() if ann is not None]
+                return names.index(name) if name in names else None
+        return None
+
     def _namedtuple_ctor(self, base):
         """``Cls(a, b)`` of a package NamedTuple class: (ClassInfo, {field: argument term})."""
+        if op(base) == "call" and op(base[1]) == "attr" and base[1][2] == "_make" and op(base[1][1]) == "cls" and len(base[2]) == 1 and not base[3]:
+            # Cls._make(seq) is Cls(*seq)
+            base = ("call", base[1][1], (("star", base[2][0]),), ())
         if op(base) != "call" or op(base[1]) != "cls" or base[1][1] not in self.model.classes:
             return None
         ci = self.model.classes[base[1][1]]
         if not any(b.split("[")[0].rsplit(".", 1)[-1] == "NamedTuple" for b in ci.base_exprs):
             return None
         names = [n for n, (ann, _) in ci.fields.items() if ann is not None]
+        if len(base[2]) == 1 and op(base[2][0]) == "star" and not base[3]:
+            # Cls(*pair): the fields are the components of the splatted value, in order
+            x = base[2][0][1]
+            return ci, {n: self.mk_item(x, ("const", i)) if hasattr(self, "mk_item") else ("item", x, ("const", i)) for i, n in enumerate(names)}
         if any(op(a) == "star" for a in base[2]) or any(k is None for k, _ in base[3]) or len(base[2]) > len(names):
             return None
         fields = dict(zip(names, base[2]))
@@ -475,11 +564,65 @@ class Lowering:
 
     def norm_call(self, t: tuple) -> tuple:
         func, args, kws = t[1], t[2], t[3]
+        # a TypedDict "constructor" is dict(): TD({...}) is that dict, TD(a=1) is {"a": 1}
+        is_td = False
+        if op(func) == "gconst":
+            mod_ = self.model.modules.get(func[1])
+            node_ = mod_.constants.get(func[2]) if mod_ is not None else None
+            is_td = isinstance(node_, ast.Call) and (getattr(node_.func, "id", None) or getattr(node_.func, "attr", None)) == "TypedDict"
+        elif op(func) == "cls" and func[1] in self.model.classes:
+            is_td = any(b.split("[")[0].rsplit(".", 1)[-1] == "TypedDict" for b in self.model.classes[func[1]].base_exprs)
+        if is_td and len(args) == 1 and not kws and op(args[0]) != "star":
+            return args[0]
+        if is_td and not args and kws and all(k is not None for k, _ in kws):
+            return ("dict", tuple((("const", k), v) for k, v in kws))
+        if op(func) == "attr" and isinstance(func[2], str) and getattr(self, "_nt_depth", 0) < 4:
+            nt = self._namedtuple_ctor(func[1])
+            if nt is not None:
+                # a method of a package NamedTuple called on a value built in place: its one return expression, with
+                # self bound to that value (helper classes that carry intermediate results)
+                ci, _fields = nt
+                m = ci.methods.get(func[2])
+                if m is not None and not m.is_property and not m.is_classmethod and not any(op(a) == "star" for a in args):
+                    body = [s_ for s_ in m.node.body if not (isinstance(s_, ast.Expr) and isinstance(s_.value, ast.Constant))]
+                    pos = [p for p in m.params[1:] if p.kind == "pos"]
+                    if len(body) == 1 and isinstance(body[0], ast.Return) and body[0].value is not None and len(args) <= len(pos):
+                        env = {m.params[0].name: func[1]}
+                        for p_, a_ in zip(pos, args):
+                            env[p_.name] = a_
+                        ok = True
+                        for k_, v_ in kws:
+                            if k_ is None or m.param(k_) is None:
+                                ok = False
+                            else:
+                                env[k_] = v_
+                        if ok and all(p_.name in env or p_.default is not None for p_ in m.params[1:]):
+                            self._nt_depth = getattr(self, "_nt_depth", 0) + 1
+                            try:
+                                low = Lowering(self.model, m, m.module)
+                                low._nt_depth = self._nt_depth
+                                for p_ in m.params[1:]:
+                                    if p_.name not in env:
+                                        env[p_.name] = low.expr(p_.default, {})
+                                return low.expr(body[0].value, env)
+                            finally:
+                                self._nt_depth -= 1
         if op(func) == "gconst":
             fv = self._callable_constant(func)
             if fv is not None:
                 func = fv
                 t = ("call", func, args, kws)
+        if any(op(a) == "star" and self._declared_length(a[1]) for a in args):
+            # f(*pair) with pair = g(..) declared to return a 2-tuple  is  f(pair[0], pair[1])
+            flat2: list = []
+            for a in args:
+                k_ = self._declared_length(a[1]) if op(a) == "star" else None
+                if k_:
+                    flat2.extend(("item", a[1], ("const", i)) for i in range(k_))
+                else:
+                    flat2.append(a)
+            args = tuple(flat2)
+            t = ("call", func, args, kws)
         if any(op(a) == "star" and op(a[1]) in ("tuple", "list") for a in args):
             # f(*(a, b))  is  f(a, b)
             flat: list = []
@@ -780,9 +923,25 @@ class Lowering:
         out = []
         for o, c in zip(e.ops, e.comparators):
             right = self.expr(c, env)
-            out.append(("cmp", CMP[type(o)], left, right))
+            one = ("cmp", CMP[type(o)], left, right)
+            # a comparison of two literals (a new keyword read with its default: `flag is None`) is decided
+            if is_const(left) and is_const(right) and CMP[type(o)] in ("is", "is not", "==", "!="):
+                a_, b_ = left[1], right[1]
+                simple = lambda v: v is None or isinstance(v, (bool, int, str, float))  # noqa: E731
+                if simple(a_) and simple(b_):
+                    if CMP[type(o)] in ("is", "is not") and (a_ is None or b_ is None or isinstance(a_, bool) or isinstance(b_, bool)):
+                        same = a_ is b_
+                        one = ("const", same if CMP[type(o)] == "is" else not same)
+                    elif CMP[type(o)] in ("==", "!=") and type(a_) is type(b_):
+                        same = a_ == b_
+                        one = ("const", same if CMP[type(o)] == "==" else not same)
+            out.append(one)
             left = right
-        return out[0] if len(out) == 1 else ("and", tuple(out))
+        if len(out) == 1:
+            return out[0]
+        if all(is_const(x) and isinstance(x[1], bool) for x in out):
+            return ("const", all(x[1] for x in out))
+        return ("and", tuple(out))
 
     def e_IfExp(self, e, env):
         c = self.expr(e.test, env)
